@@ -143,9 +143,11 @@ class Report(object):
         cov['samples'] = self.samples or ['(none)']
         cov['exhaustive'] = bool(self.exhaustive)
         cov['caps_hit'] = self.caps
-        cov['configurations'] = len(self.configs)
-        cov['configuration_list'] = self.configs[:400]
-        cov['distinct_outcomes'] = len(self.outcomes)
+        if self.configs:
+            cov['configurations'] = len(self.configs)
+            cov['configuration_list'] = self.configs[:400]
+        if self.outcomes:       # (engines that classify observations; the enumerating checks report distinct_nontrivial instead)
+            cov['distinct_outcomes'] = len(self.outcomes)
         cov['known_findings_seen'] = {fid: n for fid, (f, n) in seen.items()}
         try:
             import klepto
